@@ -239,7 +239,8 @@ def finish(prop, tier, level, coverage, violations, assumptions, t0, internal_er
     if internal_errors:
         for e in internal_errors:
             print("INTERNAL-ERROR: %s" % e)
-        return 2
+        # violations that were found before something went wrong are still violations
+        return 1 if unknown else 2
     print("%s %s: %s; states=%s transitions=%s evaluations=%s wall=%.1fs" % (
         prop, tier, "HELD on everything explored" if unknown == 0 else "%d VIOLATION(S)" % unknown,
         coverage.get("states"), coverage.get("transitions"), coverage.get("evaluations"), time.time() - t0))
